@@ -27,6 +27,10 @@ func init() {
 			ruleIndexRebuildComplete(c, "R5b")
 			ruleRegexpQuoting(c, "R6")
 			ruleBacktrackUndo(c, "R7")
+			ruleIndexGuardExact(c, "R8")
+			ruleDigitPredicates(c, "R9", "syntax.MatchDigit")
+			ruleRequestPathIsMatched(c, "R10")
+			ruleIndexResetOnEveryPath(c, "R5c")
 		},
 	})
 }
